@@ -32,6 +32,8 @@ ASSUMPTIONS = [
     'a coordinate exactly on a grid line may be reported in either neighbouring cell (on the lowest line only cell 0 '
     'exists; on the highest line the labels n-2 and n-1 are both accepted; +-180 is one meridian on a -180..180 grid)',
     'pieces with zero share are not judged (a cell that receives nothing is never wrong)',
+    'which neighbour an altitude/time value exactly on a grid line is given to is recorded in the outcome class only (the property text does not fix it)',
+    'every case is evaluated in a forked child of a worker that has never gridded anything; state carried between calls is explored by the sequence sub-lattices and the order-independence pass',
     'shares of a repeated point are undefined (0/0): only its cell, altitude/time cell and state values are judged',
 ]
 
@@ -43,7 +45,7 @@ BIG = 3 * R.DENSE_TOL
 def sublattices(tier, seed):
     subs = R.sublattices(tier, seed)
     for s in subs:
-        s['cases'] = [c for c in s['cases'] if c.get('vals', 'p') == 'p']
+        s['cases'] = [c for c in s['cases'] if 'seq' in c or c.get('vals', 'p') == 'p']
         if 'values' in s['axes']:
             s['axes'] = dict(s['axes'], values=['p'])
     return subs
@@ -105,6 +107,7 @@ def attribution(ev):
     nlat, nlon = len(g['lat']), len(g['lon'])
     vio = []
     judged = 'dense-agree'
+    judged_side = set()
     tags = tab['sv'][0]
     nseg = len(segs)
     orphan = ~np.isin(tags, np.arange(nseg, dtype=float))
@@ -127,13 +130,16 @@ def attribution(ev):
             continue
         cells = [(int(tab['ilat'][i]), int(tab['ilon'][i])) for i in idx]
         # --- altitude / time cell and state values of the starting point
-        for key, grid, kind in (('alt', R.ALT_GRID, 'altitude-cell'), ('time', R.TIME_GRID, 'time-cell')):
+        for key, grid, kind in (('alt', ev['vgrids'][0], 'altitude-cell'), ('time', ev['vgrids'][1], 'time-cell')):
             if tab[key] is None:
                 continue
             start = float(p[key][k])
             adm = R.vertical_cells(start, grid)
             got = [float(x) for x in tab[key][idx]]
             bad = [x for x in got if x not in [grid[a] for a in adm]]
+            if len(adm) == 2 and not bad:
+                # informational only: which neighbour an exact touch was given to
+                judged_side.add('upper' if all(x == grid[adm[1]] for x in got) else 'lower' if all(x == grid[adm[0]] for x in got) else 'mixed')
             if bad:
                 f = WRAP if (start == grid[0] and all(x == grid[-1] for x in bad)) else None
                 vio.append(V(kind, f'{where}: start {key} {start} lies in cell(s) {[grid[a] for a in adm]} of {grid}, reported {got}', finding=f))
@@ -184,11 +190,17 @@ def attribution(ev):
             f'{[(x[0], x[1], round(x[2], 12)) for x in ref]}; dense oracle { {c: round(v, 5) for c, v in d_dense.items()} }',
             finding=f,
         ))  # fmt: skip
+    if judged_side:
+        judged += ':start-on-vertical-line->' + '+'.join(sorted(judged_side))
     return vio, judged
 
 
 def run_case(case):
-    ev = R.evaluate(case, force_vals='p')
+    return R.run_isolated(run_single, case)
+
+
+def run_single(case, fresh=False):
+    ev = R.evaluate(case, force_vals='p', fresh=fresh)
     if 'error' in ev:
         ex = ev['error']
         return {'outcome': f'error:{type(ex).__name__}', 'nontrivial': True, 'violations': [V('exception', f'{type(ex).__name__}: {str(ex)[:300]}')]}
